@@ -18,7 +18,9 @@ RULE = ('histories of parse(document, context, flags) calls sharing one process,
         'own forked child of a parent that has parsed nothing; after every step the canonical dump '
         '(or error type, position, kind) must equal the result of the same parse in a brand-new '
         'interpreter (subprocess), and a structural snapshot of each context database must be '
-        'unchanged. Non-trivial = history with >= 2 parses sharing a context object of which one '
+        'unchanged. Ordered pairs include documents that abort inside every argument parser class (verbatim '
+        'arguments at nesting depth 1-3). '
+        'Non-trivial = history with >= 2 parses sharing a context object of which one '
         'touches a cached standard-argument parser; distinct by history.')
 ASSUMPTIONS = ['the freeze() flag set by the walker is excluded from the database snapshot',
                'fresh results come from subprocesses started with the same PYTHONHASHSEED']
